@@ -312,6 +312,12 @@ fn case_planted(t: &mut Tape, st: &mut Stats) -> Verdict {
         st.sample(|| json!({"script": tx, "malformed_line": k + 1, "expected_error": expect_kind}));
     }
     let nt = if k > 0 && n > 2 { Some(fp(&text)) } else { None };
+    // a refusal does not depend on what a script that ran earlier on this thread spread-bound: one case in six first has
+    // variables spread (`%{v}`) that hold the argument text of the malformed line (where a backslash is a plain character)
+    if t.chance(1, 6) {
+        crate::hz::spread_tails_on_this_thread(&bad);
+        st.class("parsed-after-a-spread-of-the-malformed-line's-argument-text");
+    }
     match guarded(|| (parser::parse_text(&text), parser::parse_text(&blanked))) {
         Err((msg, loc)) => fail(&format!("C08/panic@{}", short_loc(&loc)), json!({"text": text, "panic": msg, "location": loc})),
         Ok((r, rb)) => {
